@@ -266,7 +266,8 @@ func mutate(r *rand.Rand, s *Spec, giant bool) []mut {
 			_, x := pickTdx()
 			v := ordinary(r, size)
 			x.DataSize = uint32(v.v)
-			if r.IntN(2) == 0 {
+			// memory sizes of 128 MiB and more on TD-HOB / TempMem sections belong to the giant stratum
+			if r.IntN(2) == 0 && (x.Type == tdBFV || x.Type == tdCFV || x.DataSize < 1<<27) {
 				x.Size = uint64(x.DataSize)
 			}
 			return mut{"tdx.sec.datasize", v.name}
